@@ -1,7 +1,7 @@
 /* In-memory stdio / stat model executed symbolically as IR (compiled -fno-builtin).  Up to 4 files of up to 4096 bytes
    in static storage (so file contents are not heap leaks), up to 6 open streams.  Semantics follow ISO C / POSIX for
    the calls asl makes: fopen (r w a r+ w+ a+, b/t ignored), fclose, fread, fwrite, fgets, getc, fputs, fseek, ftell, feof,
-   fflush, setvbuf, stat (size, regular-file mode, mtime 0), unlink/remove, rename.  Trusted environment. */
+   fflush, setvbuf, stat (size, regular-file mode, fixed non-zero times), unlink/remove, rename.  Trusted environment. */
 #include <stddef.h>
 #define NFILES 4
 #define FCAP 4096
@@ -98,6 +98,7 @@ int stat(const char* path, void* st)
 	for (int i = 0; i < 144; i++) p[i] = 0;
 	*(unsigned int*)(p + 24) = 0100644;
 	*(long*)(p + 48) = vfs[f].size;
+	*(long*)(p + 72) = 1700000000; *(long*)(p + 88) = 1700000000; *(long*)(p + 104) = 1700000000;   /* atime, mtime, ctime */
 	return 0;
 }
 int __xstat(int v, const char* path, void* st) { (void)v; return stat(path, st); }
